@@ -337,7 +337,22 @@ func (g *G) c03Quad() (a, b, c, d s2.Point) {
 		if r.Intn(3) == 0 {
 			c = a
 		}
-	case 7: // c a few ulps from a, d outward and on the other side of AB (tangent test boundary)
+	case 11, 12: // an edge that ends at the REFERENCE DIRECTION of the shared vertex (Ortho(o)): the vertex-crossing rule
+		// orders the far endpoints around o starting from exactly that direction (seeded change C03_4)
+		o := a
+		ref := referenceDirOf(o)
+		far := g.c03Point(o, ref, nil)
+		switch r.Intn(4) {
+		case 0:
+			a, b, c, d = o, ref, o, far
+		case 1:
+			a, b, c, d = o, far, o, ref
+		case 2:
+			a, b, c, d = ref, o, far, o
+		default:
+			a, b, c, d = o, ref, far, o
+		}
+	case 7, 13, 14: // c a few ulps from a, d outward and on the other side of AB (tangent test boundary)
 		c = g.jitter(a, 2)
 		n := ortho(a)
 		if cr := a.Cross(b.Vector); cr.Norm2() > 0 {
